@@ -443,3 +443,33 @@ def error_discipline(check: Check, repo: Repo, mods: list[Module]) -> None:
                 check.ob(rule, n, f"GraphQLError(...) in {qualname_of(n)}", ok,
                          "reported" if ok else "constructed error is dropped")
     check.floor(rule, 60, "error constructions")
+
+
+def default_is_none(check: Check, repo: Repo, funcs: list[ast.AST], rule: str = "DEFAULT-IS-NONE") -> None:
+    check.rule(
+        rule,
+        "a parameter whose default is None is replaced by its documented default only under an explicit "
+        "`is None` test; `x = x or default` also replaces the legitimate falsy arguments (max_errors=0, "
+        "an empty rule collection)",
+    )
+    from sa.cfg import CFG as _CFG
+    from sa.guards import FactFlow as _FF
+
+    for fn in funcs:
+        a = fn.args  # type: ignore[attr-defined]
+        params = [x.arg for x in a.posonlyargs + a.args + a.kwonlyargs]
+        defaults = dict(zip([x.arg for x in (a.posonlyargs + a.args)][-len(a.defaults):] if a.defaults else [], a.defaults))
+        defaults.update({k.arg: d for k, d in zip(a.kwonlyargs, a.kw_defaults) if d is not None})
+        none_params = {p for p, d in defaults.items() if isinstance(d, ast.Constant) and d.value is None}
+        flow = None
+        for s in fn.body:  # type: ignore[attr-defined]
+            for n in ast.walk(s):
+                if isinstance(n, (ast.FunctionDef, ast.AsyncFunctionDef, ast.Lambda)):
+                    break
+                if isinstance(n, ast.Assign) and len(n.targets) == 1 and isinstance(n.targets[0], ast.Name) and n.targets[0].id in none_params:
+                    p = n.targets[0].id
+                    flow = flow or _FF(_CFG(fn))
+                    facts = {(f.text, f.pol) for f in flow.facts_at(n)}
+                    ok = (f"{p} is None", True) in facts or (f"{p} is not None", False) in facts
+                    check.ob(rule, n, f"{fn.name}: {unparse(n)[:60]}", ok,  # type: ignore[attr-defined]
+                             f"under `{p} is None`" if ok else f"`{p}` is replaced without an `is None` test: falsy arguments are lost")
